@@ -82,22 +82,170 @@ fn apy_is_exact_average(start: i64, t: u128, g: &[u128; APY_BUCKETS]) {
     kani::cover!(q > 0 && s == qt);
 }
 
-//@ prop=C38 tier=experimental kind=hold
+//@ prop=C38 tier=quick kind=hold
 //@ enc=compute_time_weighted_apy (via verif_hooks)
-//@ bound=probe
+//@ bound=elapsed time T fixed to 1 second (first bucket only); all 53 gradients arbitrary in [0, min(2^8 - 1, APY_MAX)]; stake start fixed to 0; unwind 54
+//@ stubs=none
 #[kani::proof]
 #[kani::unwind(54)]
-fn c38_probe_53w1_16bit() {
+fn c38_apy_exact_after_1_second_w8() {
+    let g = any_gradient(8);
+    let t: u128 = 1;
+    let start: i64 = 0;
+    apy_is_exact_average(start, t, &g);
+}
+
+//@ prop=C38 tier=quick kind=hold
+//@ enc=compute_time_weighted_apy (via verif_hooks)
+//@ bound=elapsed time T fixed to exactly one week (no remainder); all 53 gradients arbitrary in [0, min(2^8 - 1, APY_MAX)]; stake start fixed to 0; unwind 54
+//@ stubs=none
+#[kani::proof]
+#[kani::unwind(54)]
+fn c38_apy_exact_after_1_week_w8() {
+    let g = any_gradient(8);
+    let t: u128 = W;
+    let start: i64 = 0;
+    apy_is_exact_average(start, t, &g);
+}
+
+//@ prop=C38 tier=quick kind=hold
+//@ enc=compute_time_weighted_apy (via verif_hooks)
+//@ bound=elapsed time T fixed to one week and one second (remainder falls into bucket 1); all 53 gradients arbitrary in [0, min(2^8 - 1, APY_MAX)]; stake start fixed to 0; unwind 54
+//@ stubs=none
+#[kani::proof]
+#[kani::unwind(54)]
+fn c38_apy_exact_after_1_week_1_second_w8() {
+    let g = any_gradient(8);
+    let t: u128 = W + 1;
+    let start: i64 = 0;
+    apy_is_exact_average(start, t, &g);
+}
+
+//@ prop=C38 tier=quick kind=hold
+//@ enc=compute_time_weighted_apy (via verif_hooks)
+//@ bound=elapsed time T fixed to 52 weeks and 5 seconds (all regular buckets complete, remainder in the last bucket, no extra week); all 53 gradients arbitrary in [0, min(2^8 - 1, APY_MAX)]; stake start fixed to 0; unwind 54
+//@ stubs=none
+#[kani::proof]
+#[kani::unwind(54)]
+fn c38_apy_exact_after_52_weeks_5_seconds_w8() {
+    let g = any_gradient(8);
+    let t: u128 = 52 * W + 5;
+    let start: i64 = 0;
+    apy_is_exact_average(start, t, &g);
+}
+
+//@ prop=C38 tier=quick kind=hold
+//@ enc=compute_time_weighted_apy (via verif_hooks)
+//@ bound=elapsed time T fixed to 53 weeks and 1 second (one complete week and a remainder past the table); all 53 gradients arbitrary in [0, min(2^8 - 1, APY_MAX)]; stake start fixed to 0; unwind 54
+//@ stubs=none
+#[kani::proof]
+#[kani::unwind(54)]
+fn c38_apy_exact_after_53_weeks_1_second_w8() {
+    let g = any_gradient(8);
+    let t: u128 = 53 * W + 1;
+    let start: i64 = 0;
+    apy_is_exact_average(start, t, &g);
+}
+
+//@ prop=C38 tier=quick kind=hold
+//@ enc=compute_time_weighted_apy (via verif_hooks)
+//@ bound=elapsed time T fixed to 60 weeks and 777 seconds (8 complete weeks past the table); all 53 gradients arbitrary in [0, min(2^8 - 1, APY_MAX)]; stake start fixed to 0; unwind 54
+//@ stubs=none
+#[kani::proof]
+#[kani::unwind(54)]
+fn c38_apy_exact_after_60_weeks_777_seconds_w8() {
+    let g = any_gradient(8);
+    let t: u128 = 60 * W + 777;
+    let start: i64 = 0;
+    apy_is_exact_average(start, t, &g);
+}
+
+//@ prop=C38 tier=quick kind=hold
+//@ enc=compute_time_weighted_apy (via verif_hooks)
+//@ bound=elapsed time T fixed to 10 days; all 53 gradients arbitrary in [0, min(2^8 - 1, APY_MAX)]; any stake start in [0, i64::MAX - T] (assumption: unix timestamp >= 0); unwind 54
+//@ stubs=none
+#[kani::proof]
+#[kani::unwind(54)]
+fn c38_apy_exact_any_start_10_days_w8() {
+    let g = any_gradient(8);
+    let t: u128 = 10 * 86_400;
+    let start: i64 = kani::any();
+    kani::assume(start >= 0 && (start as u128) + t <= i64::MAX as u128);
+    apy_is_exact_average(start, t, &g);
+}
+
+//@ prop=C38 tier=thorough kind=hold
+//@ enc=compute_time_weighted_apy (via verif_hooks)
+//@ bound=elapsed time T fixed to one week and one second (remainder falls into bucket 1); all 53 gradients arbitrary in [0, min(2^16 - 1, APY_MAX)]; stake start fixed to 0; unwind 54
+//@ stubs=none
+#[kani::proof]
+#[kani::unwind(54)]
+fn c38_apy_exact_after_1_week_1_second_w16() {
     let g = any_gradient(16);
-    apy_is_exact_average(0, 53 * W + 1, &g);
+    let t: u128 = W + 1;
+    let start: i64 = 0;
+    apy_is_exact_average(start, t, &g);
+}
+
+//@ prop=C38 tier=thorough kind=hold
+//@ enc=compute_time_weighted_apy (via verif_hooks)
+//@ bound=elapsed time T fixed to 52 weeks and 5 seconds (all regular buckets complete, remainder in the last bucket, no extra week); all 53 gradients arbitrary in [0, min(2^16 - 1, APY_MAX)]; stake start fixed to 0; unwind 54
+//@ stubs=none
+#[kani::proof]
+#[kani::unwind(54)]
+fn c38_apy_exact_after_52_weeks_5_seconds_w16() {
+    let g = any_gradient(16);
+    let t: u128 = 52 * W + 5;
+    let start: i64 = 0;
+    apy_is_exact_average(start, t, &g);
+}
+
+//@ prop=C38 tier=thorough kind=hold
+//@ enc=compute_time_weighted_apy (via verif_hooks)
+//@ bound=elapsed time T fixed to 53 weeks and 1 second (one complete week and a remainder past the table); all 53 gradients arbitrary in [0, min(2^16 - 1, APY_MAX)]; stake start fixed to 0; unwind 54
+//@ stubs=none
+#[kani::proof]
+#[kani::unwind(54)]
+fn c38_apy_exact_after_53_weeks_1_second_w16() {
+    let g = any_gradient(16);
+    let t: u128 = 53 * W + 1;
+    let start: i64 = 0;
+    apy_is_exact_average(start, t, &g);
+}
+
+//@ prop=C38 tier=thorough kind=hold
+//@ enc=compute_time_weighted_apy (via verif_hooks)
+//@ bound=elapsed time T fixed to 60 weeks and 777 seconds (8 complete weeks past the table); all 53 gradients arbitrary in [0, min(2^16 - 1, APY_MAX)]; stake start fixed to 0; unwind 54
+//@ stubs=none
+#[kani::proof]
+#[kani::unwind(54)]
+fn c38_apy_exact_after_60_weeks_777_seconds_w16() {
+    let g = any_gradient(16);
+    let t: u128 = 60 * W + 777;
+    let start: i64 = 0;
+    apy_is_exact_average(start, t, &g);
+}
+
+//@ prop=C38 tier=thorough kind=hold
+//@ enc=compute_time_weighted_apy (via verif_hooks)
+//@ bound=elapsed time T fixed to 2 weeks and 3 days; all 53 gradients arbitrary in [0, min(2^68 - 1, APY_MAX)]; stake start fixed to 0; unwind 54
+//@ stubs=none
+#[kani::proof]
+#[kani::unwind(54)]
+fn c38_apy_exact_after_2_weeks_3_days_full_width() {
+    let g = any_gradient(68);
+    let t: u128 = 2 * W + 3 * 86_400;
+    let start: i64 = 0;
+    apy_is_exact_average(start, t, &g);
 }
 
 //@ prop=C38 tier=experimental kind=hold
 //@ enc=compute_time_weighted_apy (via verif_hooks)
-//@ bound=probe
+//@ bound=any elapsed time T in [1 s, 4 weeks], 8-bit gradients, start 0; unwind 54. Does not finish (> 900 s): the u128 division by a symbolic duration has to be related to the reference product.
+//@ stubs=none
 #[kani::proof]
 #[kani::unwind(54)]
-fn c38_probe_symbolic_t_8bit() {
+fn c38_apy_exact_any_duration_up_to_4_weeks_w8() {
     let g = any_gradient(8);
     let t: u128 = kani::any();
     kani::assume(t >= 1 && t <= 4 * W);
